@@ -20,6 +20,15 @@ def main():
             ok &= subprocess.call([exe, "siv", str(ks), "%s/TinyJAMBU-%d-SIV.txt" % (kat, ks)]) == 0
         ok &= subprocess.call([exe, "hash", kat + "/TinyJAMBU-HASH.txt"]) == 0
         ok &= subprocess.call([exe, "hmac", kat + "/TinyJAMBU-HMAC.txt"]) == 0
+        # HKDF / PBKDF2 / HMAC / Hash_DRBG oracles vs the natively built real library (seeded random inputs)
+        exe2 = os.path.join(d, "vkdf")
+        libsrc = [os.path.join(D.SRC, f) for f in ("tinyjambu-hash.c", "tinyjambu-hmac.c", "tinyjambu-hkdf.c", "tinyjambu-pbkdf2.c",
+                                                    "tinyjambu-prng.c", "backend/tinyjambu-clean.c", "backend/tinyjambu-256-c32.c",
+                                                    "random/tinyjambu-trng-dev-random.c")]
+        subprocess.check_call(["gcc", "-O2", "-w", "-DHAVE_CONFIG_H", "-I" + D.config_dir("default"), "-I" + D.SRC, "-I" + D.MODELS, "-o", exe2,
+                               os.path.join(D.MODELS, "validate_kdf.c"), os.path.join(D.MODELS, "tj_spec.c"),
+                               os.path.join(D.MODELS, "kdf_spec.c")] + libsrc)
+        ok &= subprocess.call([exe2]) == 0
         print("model validation:", "ok" if ok else "FAILED")
         return 0 if ok else 1
     finally:
